@@ -234,7 +234,7 @@ theorem decode_of {b : Bytes} {d : Dump} (hd : readDump b = .ok d)
     {t : Except Err (List Thread)} {mo : Except Err (List Module)} {m5 m9 : Except Err (List Region)}
     {mi : Except Err (List MemInfo)} {tn : Except Err (List (Nat × List Nat))} {un : Except Err (List UnloadedModule)}
     {x : Except Err Exception} {sy : Except Err RSysInfo} {mc : Except Err MiscInfo} {hn : Except Err (List Handle)}
-    {lm : Except Err (List MapEntry)}
+    {lm : Except Err (List MapEntry)} {cp : Except Err (List Nat × CrashpadInfo)}
     (h1 : streamRes d b ST_THREAD_LIST (fun s => readThreadList MemSizes.default s b d.endian) = .ok t)
     (h2 : streamRes d b ST_MODULE_LIST (fun s => readModuleList MemSizes.default s b d.endian) = .ok mo)
     (h3 : streamRes d b ST_MEMORY_LIST (fun s => readMemoryList MemSizes.default s b d.endian) = .ok m5)
@@ -246,7 +246,8 @@ theorem decode_of {b : Bytes} {d : Dump} (hd : readDump b = .ok d)
     (h9 : streamRes d b ST_SYSTEM_INFO (fun s => readSystemInfo s b d.endian) = .ok sy)
     (h10 : streamRes d b ST_MISC_INFO (fun s => readMiscInfo s d.endian) = .ok mc)
     (h11 : streamRes d b ST_HANDLE_DATA_STREAM (fun s => readHandleData MemSizes.default s b d.endian) = .ok hn)
-    (h12 : streamRes d b ST_LINUX_MAPS (fun s => readLinuxMaps s) = .ok lm) :
+    (h12 : streamRes d b ST_LINUX_MAPS (fun s => readLinuxMaps s) = .ok lm)
+    (h13 : streamRes d b ST_CRASHPAD (fun s => readCrashpadInfoRaw MemSizes.default s b d.endian) = .ok cp) :
     decode b = .ok
       { endian := d.endian, flags := d.header.flags,
         threads := t.map (fun l => l.map (rthreadOf b)),
@@ -259,8 +260,9 @@ theorem decode_of {b : Bytes} {d : Dump} (hd : readDump b = .ok d)
         sysInfo := sy,
         miscInfo := mc,
         handles := hn.map (fun l => l.map rhandleOf),
-        linuxMaps := lm } := by
-  simp only [decode, hd, h1, h2, h3, h4, h5, h6, h7, h8, h9, h10, h11, h12, Res.bind]
+        linuxMaps := lm,
+        crashpad := cp.map rcrashpadOf } := by
+  simp only [decode, hd, h1, h2, h3, h4, h5, h6, h7, h8, h9, h10, h11, h12, h13, Res.bind]
 
 /-- **C02.3 `decode_encode`** — for every well-formed model (lists of any length, any field values
     that fit the wire widths, names/CSD strings of arbitrary Unicode scalar values, all four
@@ -279,7 +281,11 @@ theorem decode_of {b : Bytes} {d : Dump} (hd : readDump b = .ok d)
     optional names, and — second kind — the object-information chain; `StreamNotFound` when the
     model has none) and the LINUX MAPS text stream (every entry in file order: both addresses,
     the permission bits, offset, device numbers, inode and the path column in each of its
-    spellings; `StreamNotFound` when the model has none). -/
+    spellings; `StreamNotFound` when the model has none) and CRASHPAD INFO (version, report and
+    client id, the simple-annotations dictionary as a map by key — last duplicate wins —, and per
+    module its index, version, list annotations in file order, dictionary, and annotation objects
+    by name with their typed values; the per-module budget of copied string bytes is never
+    exhausted; `StreamNotFound` when the model has none). -/
 theorem decode_encode {m : DumpModel} {f : MemForm} (wf : WellFormed m f) (e : Endian) :
     decode (encode m e f) = .ok (report m e f) := by
   have hd := readDump_encode wf e
@@ -399,6 +405,23 @@ theorem decode_encode {m : DumpModel} {f : MemForm} (wf : WellFormed m f) (e : E
       have := streamRes_ok (d := d) (reader := fun s => readLinuxMaps s)
         (getRawStream_encode wf e ST_LINUX_MAPS _ (core_linuxMaps m e f hs) d rfl) hr
       simpa [report, hs] using this
+  -- Crashpad info
+  have h13 : ∃ x, streamRes d (encode m e f) ST_CRASHPAD
+      (fun s => readCrashpadInfoRaw MemSizes.default s (encode m e f) e) = .ok x ∧
+      x.map rcrashpadOf = (report m e f).crashpad := by
+    cases hs : m.crashpad with
+    | none =>
+      refine ⟨_, streamRes_notFound (getRawStream_encode_none wf e ST_CRASHPAD (no_crashpad m f hs) d rfl), ?_⟩
+      simp [report, hs, Except.map]
+    | some x =>
+      have hoob : Has (encode m e f).toList (oobOffsets m f).crashpad (crashpadOobOf e (oobOffsets m f).crashpad x) := by
+        have := hpl.crashpad; simpa [crashpadOob, hs] using this
+      obtain ⟨r, hr1, hr2⟩ := readCrashpadInfoRaw_enc MemSizes.default
+        (s := (encCrashpad e (oobOffsets m f).crashpad x).toArray) (all := encode m e f) (e := e)
+        (off := (oobOffsets m f).crashpad) (x := x) (by simp) (wf.crashpad x hs) hoob hall
+      refine ⟨_, streamRes_ok (getRawStream_encode wf e ST_CRASHPAD _ (core_crashpad m e f hs) d rfl) hr1, ?_⟩
+      simp [report, hs, Except.map, hr2]
+  obtain ⟨cpr, h13, hc2⟩ := h13
   -- memory, by form
   cases f with
   | mem =>
@@ -410,8 +433,8 @@ theorem decode_encode {m : DumpModel} {f : MemForm} (wf : WellFormed m f) (e : E
       (getRawStream_encode wf e ST_MEMORY_LIST _ (core_memory m e) d rfl) hr1
     have h4 := streamRes_notFound (d := d) (reader := fun s => readMemory64List MemSizes.default s (encode m e .mem) e)
       (getRawStream_encode_none wf e ST_MEMORY64_LIST (no_memory64_in_mem m) d rfl)
-    rw [decode_of hd h1 h2 h3 h4 h5 h6 h7 h8 h9 h10 h11 h12]
-    simp only [hx2, hn2]
+    rw [decode_of hd h1 h2 h3 h4 h5 h6 h7 h8 h9 h10 h11 h12 h13]
+    simp only [hx2, hn2, hc2]
     simp only [Except.map, pickMemory, ht2, hm2, hr2, hi2, hu2]
     simp [report, hnobad, encHeaderVal]
   | mem64 =>
@@ -423,8 +446,8 @@ theorem decode_encode {m : DumpModel} {f : MemForm} (wf : WellFormed m f) (e : E
       (getRawStream_encode wf e ST_MEMORY64_LIST _ (core_memory64 m e) d rfl) hr1
     have h3 := streamRes_notFound (d := d) (reader := fun s => readMemoryList MemSizes.default s (encode m e .mem64) e)
       (getRawStream_encode_none wf e ST_MEMORY_LIST (no_memory_in_mem64 m) d rfl)
-    rw [decode_of hd h1 h2 h3 h4 h5 h6 h7 h8 h9 h10 h11 h12]
-    simp only [hx2, hn2]
+    rw [decode_of hd h1 h2 h3 h4 h5 h6 h7 h8 h9 h10 h11 h12 h13]
+    simp only [hx2, hn2, hc2]
     simp only [Except.map, pickMemory, ht2, hm2, hr2, hi2, hu2]
     simp [report, hnobad, encHeaderVal]
 
@@ -455,7 +478,13 @@ def exampleModel : DumpModel :=
                        ⟨0x7f000000, 0x7f001000, 3, 0, 0, 0, 0, .tstack 77⟩,
                        ⟨0x1000, 0x2000, 11, 4096, 0, 5, 42, .vsys 0xaabbccdd⟩,
                        ⟨0x3000, 0x2000, 0, 0, 0, 0, 0, .other [0x61, 0x6e, 0x6f, 0x6e]⟩,
-                       ⟨0, 0xffffffffffffffff, 16, 0, 0, 0, 0, .anonymous⟩] }
+                       ⟨0, 0xffffffffffffffff, 16, 0, 0, 0, 0, .anonymous⟩],
+    crashpad := some
+      { version := 1, reportId := [1, 2, 3, 4, 5, 6, 7, 8, 9, 10, 11], clientId := [0, 0, 0, 0, 0, 0, 0, 0, 0, 0, 0],
+        simpleAnnotations := [([0x6b], [0x76]), ([0x61], []), ([0x6b], [0xce, 0xba])],
+        modules := [⟨3, 1, [[0x78], []], [([0x62], [0x63])],
+                     [.invalid [0x69], .string [0x73] [0x31, 0x32], .other [0x75] 0x8001 77, .other [0x6e] 5 0]⟩,
+                    ⟨0, 1, [], [], []⟩] } }
 
 theorem validName_of_all (cs : List Nat) (h : cs.all (fun c => decide (c < 0xD800 ∨ (0xE000 ≤ c ∧ c < 0x110000))) = true) :
     ValidName cs := by
@@ -465,7 +494,7 @@ theorem validName_of_all (cs : List Nat) (h : cs.all (fun c => decide (c < 0xD80
 
 example : WellFormed exampleModel .mem ∧ WellFormed exampleModel .mem64 := by
   constructor <;>
-  · refine ⟨by decide, by decide +kernel, ?_, ?_, ?_, ?_, ?_, ?_, ?_, ?_, ?_, ?_, ?_, ?_⟩
+  · refine ⟨by decide, by decide +kernel, ?_, ?_, ?_, ?_, ?_, ?_, ?_, ?_, ?_, ?_, ?_, ?_, ?_⟩
     · intro t ht
       simp only [exampleModel, List.mem_singleton] at ht
       subst ht
@@ -531,6 +560,34 @@ example : WellFormed exampleModel .mem ∧ WellFormed exampleModel .mem64 := by
       · exact ⟨by decide, by decide, by decide, by decide, by decide, by decide, by decide, ⟨by decide, by decide⟩,
           by decide, by decide⟩
       · exact ⟨by decide, by decide, by decide, by decide, by decide, by decide, by decide, trivial, by decide, by decide⟩
+    · intro x hx
+      simp only [exampleModel, Option.some.injEq] at hx
+      subst hx
+      refine ⟨by decide, by decide, ?_, ?_, ?_, ?_⟩
+      · exact ⟨rfl, by decide, by decide, by decide, by decide⟩
+      · exact ⟨rfl, by decide, by decide, by decide, by decide⟩
+      · intro kv hkv
+        simp only [List.mem_cons, List.not_mem_nil, or_false] at hkv
+        rcases hkv with rfl | rfl | rfl <;> exact ⟨by decide, by decide⟩
+      · intro y hy
+        simp only [List.mem_cons, List.not_mem_nil, or_false] at hy
+        rcases hy with rfl | rfl
+        · refine ⟨by decide, by decide, ?_, ?_, ?_⟩
+          · intro s hs
+            simp only [List.mem_cons, List.not_mem_nil, or_false] at hs
+            rcases hs with rfl | rfl <;> decide
+          · intro kv hkv
+            simp only [List.mem_cons, List.not_mem_nil, or_false] at hkv
+            subst hkv
+            exact ⟨by decide, by decide⟩
+          · intro a ha
+            simp only [List.mem_cons, List.not_mem_nil, or_false] at ha
+            rcases ha with rfl | rfl | rfl | rfl
+            · show utf8Valid _ = true; decide
+            · exact ⟨by decide, by decide⟩
+            · exact ⟨by decide, by decide, by decide, by decide, by decide⟩
+            · exact ⟨by decide, by decide, by decide, by decide, by decide⟩
+        · exact ⟨by decide, by decide, by simp, by intro kv hkv; simp at hkv, by simp⟩
     · intro x hx
       simp only [exampleModel, List.mem_singleton] at hx
       subst hx
